@@ -379,7 +379,7 @@ class Parser(object):
     def err(self, msg, tok=None):
         tok = tok or self.tok
         e = RefSyntaxError(msg, tok.start, len(self.tokens))
-        e.tokens = list(self.tokens)
+        e.tokens = list(self.tokens) + ([tok] if tok.type != 'eof' else [])
         raise e
 
     def _lex(self, regex=False):
